@@ -93,6 +93,8 @@ impl WalIndex {
         // bring the previous index back and already consumed entries would be delivered again.
         if let Some(parent) = std::path::Path::new(&self.path).parent() {
             if let Ok(dir) = fs::File::open(parent) {
+                #[cfg(walrus_verif)]
+                crate::wal::verif::io_event("fsync");
                 dir.sync_all()?;
             }
         }
